@@ -633,7 +633,13 @@ static void tsyncCoopCase(Rng & rng, long nrec, int rewardMode) {
     const auto & S = g.getS(); const auto & A = g.getA();
     size_t nf = S.size();
     FM::CooperativeExperience exp(g);
-    std::mt19937 shadow;     // CooperativeThompsonModel never seeds its engine
+    // CooperativeThompsonModel seeds its engine from Seeder (it did not before repo 10a0de3): find out which seed the first
+    // object created after this point receives, then re-root so that the model below is that first object
+    unsigned root = (unsigned)rng.next();
+    AIToolbox::Seeder::setRootSeed(root);
+    unsigned seed = AIToolbox::Seeder::getSeed();
+    AIToolbox::Seeder::setRootSeed(root);
+    std::mt19937 shadow(seed);
     std::vector<std::vector<TRow>> last(nf);
     for (size_t i = 0; i < nf; ++i) last[i].resize(g.getSize(i));
     auto snap = [&](size_t i, size_t j) {
